@@ -166,6 +166,7 @@ type State struct {
 	Layer   int
 	forced  map[int32]bool
 	NFresh  int
+	EngineOnly bool
 	EnvChoices int // nondeterministic choices made by environment models (sync.Pool, select tie-break)
 	snapEnv int
 	// snapshot of per-instruction counters (see Engine.decide)
